@@ -1,5 +1,6 @@
 import Grip.Spec.C04
 import GripProofs.Lemmas.C04Reopen
+import GripProofs.Lemmas.C04Crash
 
 namespace Grip.Props.C04
 open Grip.C03 Grip.C04 Grip.C04.Spec Grip.Props.C04.Lemmas
@@ -80,5 +81,71 @@ example (g : String) (v : VertexIn) :
     Obs (runEv {} ([.op (.addGraph g)] ++ [.reopen] ++ [.op (.addV g [v])])) =
     Obs (runEv {} ([.op (.addGraph g)] ++ [.op (.addV g [v])])) :=
   (reopen_transparent [.op (.addGraph g)] [.op (.addV g [v])]).1
+
+/-! ### crash points -/
+
+/-- What a crash state persists: the first `k` writes of the call, nothing else (`reopen` keeps the map). -/
+theorem crash_kv (s : KState) (op : Op) (k : Nat) :
+    (crashAt s op k).kv = applyPrefix k (writes s op) s.kv := reopen_kv _
+
+/-- A restarted server's registry is in sync whatever the cut, so everything `reopen_transparent_from`
+    says holds from a crash state on (later calls behave as on a server that never stopped). -/
+theorem crash_fields_in_sync (s : KState) (op : Op) (k : Nat) : FieldsSync (crashAt s op k) := sync_reopen _
+
+/-- **DeleteGraph is crash-safe at every cut** (all states with the weak invariant and validly named
+    graphs; no hypothesis on the state after the call).  With the graph key deleted first (the repair),
+    later writes only delete keys of a graph that is no longer listed. -/
+theorem crash_weak_inv_delGraph (hsplit : SplitFact) (s : KState) (g : String) (k : Nat)
+    (hw : WeakInv s.kv) (hv : ValidListed s.kv) : WeakInv (crashAt s (.delGraph g) k).kv := by
+  rw [crash_kv]; exact delGraph_cut_weak hsplit s g k hw hv
+
+/-- **Weak invariant at every cut of every call** — partial: it assumes that the *completed* call
+    re-establishes the weak invariant (`hfull`), which is part of the C03 invariant proof
+    (GripProofs/Props/C03: `Inv` is preserved by `step`) and is not re-proved here.  What this
+    theorem adds is every *interior* cut: AddGraph (field keys before the graph key), DeleteGraph
+    (graph key first), and that all other calls issue a single atomic write. -/
+theorem crash_weak_inv_partial (hsplit : SplitFact) (s : KState) (op : Op) (k : Nat)
+    (hw : WeakInv s.kv) (hv : ValidListed s.kv) (hfull : WeakInv (step s op).1.kv) :
+    WeakInv (crashAt s op k).kv := by
+  rw [crash_kv]
+  by_cases h1 : ∃ g, op = .addGraph g
+  · obtain ⟨g, rfl⟩ := h1; exact addGraph_cut s g k hw hfull
+  by_cases h2 : ∃ g, op = .delGraph g
+  · obtain ⟨g, rfl⟩ := h2; exact delGraph_cut_weak hsplit s g k hw hv
+  have hs := writes_single s op (fun g e => h1 ⟨g, e⟩) (fun g e => h2 ⟨g, e⟩)
+  rcases cut_single s op k hs with e | e <;> rw [e]
+  · exact hw
+  · exact hfull
+
+/-- Interior cuts exist only for AddGraph and DeleteGraph: every other call is one atomic write, so
+    a crash leaves the state before or the state after it. -/
+theorem crash_atomic (s : KState) (op : Op) (k : Nat) (h1 : ∀ g, op ≠ .addGraph g) (h2 : ∀ g, op ≠ .delGraph g) :
+    (crashAt s op k).kv = s.kv ∨ (crashAt s op k).kv = (step s op).1.kv := by
+  rw [crash_kv]; exact cut_single s op k (writes_single s op h1 h2)
+
+/-- **Acknowledged requests are fully present**: at every cut of every call, every key holds the value
+    it had before the call (the result of all acknowledged requests) or the value the completed call
+    gives it; in particular keys the call does not write keep their value, and cut 0 is the state
+    before the call. -/
+theorem acked_present (s : KState) (op : Op) (k : Nat) :
+    Present s.kv (crashAt s op k).kv (step s op).1.kv := by
+  rw [crash_kv]
+  by_cases h1 : ∃ g, op = .addGraph g
+  · obtain ⟨g, rfl⟩ := h1; exact present_addGraph s g k
+  by_cases h2 : ∃ g, op = .delGraph g
+  · obtain ⟨g, rfl⟩ := h2; exact present_delGraph s g k
+  have hs := writes_single s op (fun g e => h1 ⟨g, e⟩) (fun g e => h2 ⟨g, e⟩)
+  intro key
+  rcases cut_single s op k hs with e | e <;> rw [e]
+  · exact Or.inl rfl
+  · exact Or.inr rfl
+
+theorem crash_before_first_write (s : KState) (op : Op) : (crashAt s op 0).kv = s.kv := by
+  rw [crash_kv]; rfl
+
+/-- Non-vacuity of the hypotheses: the empty directory satisfies the weak invariant and has only
+    validly named graphs (none). -/
+example : WeakInv ({} : KState).kv ∧ ValidListed ({} : KState).kv := by
+  refine ⟨⟨?_, ?_, ?_, ?_, ?_, ?_⟩, ?_⟩ <;> (try unfold ValidListed) <;> intros <;> simp_all [Listed, KV.has]
 
 end Grip.Props.C04
